@@ -26,11 +26,15 @@ type c11Case struct {
 	SlowMs    int    `json:"slow_ms,omitempty"`
 	Reopen    string `json:"reopen,omitempty"`
 	Quiet     int    `json:"quiet,omitempty"`
+	PauseMs   int    `json:"pause_ms,omitempty"`
 }
 
 func (c c11Case) class() string {
 	if c.CloseRace {
 		return fmt.Sprintf("close-behind-data|sizes=%s|kinds=%s|batch=%s|n=%s|backend reads 1 msg per %dms", c.Sizes, c.Kinds, c.Batch, c11Bucket(c.C2S), c.SlowMs)
+	}
+	if c.PauseMs > 0 {
+		return fmt.Sprintf("backend busy (not reading) for %d ms then resumes, client keeps posting", c.PauseMs)
 	}
 	if c.Quiet > 0 {
 		return fmt.Sprintf("%d quiet sessions polled like the browser shim, backend speaks at 16 s and 20.6 s", c.Quiet)
@@ -112,6 +116,10 @@ func c11Cases(r *core.Run) []c11Case {
 	var out []c11Case
 	// first, so that its 21 s of mostly waiting overlap everything else
 	out = append(out, c11Case{ID: fmt.Sprintf("c11-s%d-quiet", r.Seed), Seed: r.Seed, Quiet: 6, Version: 1, Sessions: 6})
+	// also mostly waiting, overlapping the quiet history: a backend that is busy for several seconds
+	for i, ms := range []int{7000, 6000, 9000, 12000}[:r.Pick(1, 4)] {
+		out = append(out, c11Case{ID: fmt.Sprintf("c11-s%d-pause%d", r.Seed, i), Seed: r.Seed + int64(i), PauseMs: ms, Version: 1, Sessions: 1})
+	}
 	for i := 0; i < n; i++ {
 		c := c11Case{ID: fmt.Sprintf("c11-s%d-%d", r.Seed, i), Seed: rng.Int63()}
 		// the first cases walk every value of every dimension, the rest are drawn
@@ -184,7 +192,7 @@ func c11Cases(r *core.Run) []c11Case {
 // C11 — shimmed websockets deliver every message once, in order, unchanged.
 func C11(r *core.Run) {
 	r.Level = "exploration"
-	r.SetRule("websockets.Proxy driven in-process (race-built worker, agent's GODEBUG defaults) against a real gorilla websocket backend; one case = one seeded message history over 1-2 shim sessions: text (valid UTF-8 incl. NUL, quotes, <>&, U+2028, 4-byte runes) and binary (all byte values, protocol v1) messages of sizes {0,1,125,126,127,65535,65536,65537,1 MiB,random}, client messages partitioned into data posts of 1-40 (some >10 = queue capacity, some spanning two sessions), backend bursts of 1-100 sent before / while / trickling during polls, one data post and one poll outstanding per session; every third history ends with a final backend burst of 1-30 messages (incl. 10, 11, 12, 30) sent while no poll is outstanding followed by a graceful backend close, after which polls must deliver the burst and then report the session closed; plus one quiet history: 6 idle sessions polled the way the browser shim polls (one poll outstanding, re-poll on every answer) while the backend is silent for 16 s, speaks, and speaks again at 20.6 s (around the 20 s poll time-out), every message to be delivered exactly once; plus reopen histories: open A, open B, traffic on A, A ends (client close | backend close reported by a poll), open C, then interleaved two-session traffic (posts spanning B and C) with every backend connection and every session's polls checked for exactly their own messages; plus close-behind-data histories: 1-35 messages (more than the queue, or 1 MiB each) posted to a backend that reads one message per 5-20 ms, close posted right behind the last data post, all messages must arrive in order followed by a normal closure; with injection enabled JSON messages of 13 shapes around resource.headers; class = (injection, protocol version, sessions, size profile, kinds, post batching, poll timing)")
+	r.SetRule("websockets.Proxy driven in-process (race-built worker, agent's GODEBUG defaults) against a real gorilla websocket backend; one case = one seeded message history over 1-2 shim sessions: text (valid UTF-8 incl. NUL, quotes, <>&, U+2028, 4-byte runes) and binary (all byte values, protocol v1) messages of sizes {0,1,125,126,127,65535,65536,65537,1 MiB,random}, client messages partitioned into data posts of 1-40 (some >10 = queue capacity, some spanning two sessions), backend bursts of 1-100 sent before / while / trickling during polls, one data post and one poll outstanding per session; every third history ends with a final backend burst of 1-30 messages (incl. 10, 11, 12, 30) sent while no poll is outstanding followed by a graceful backend close, after which polls must deliver the burst and then report the session closed; plus one quiet history: 6 idle sessions polled the way the browser shim polls (one poll outstanding, re-poll on every answer) while the backend is silent for 16 s, speaks, and speaks again at 20.6 s (around the 20 s poll time-out), every message to be delivered exactly once; plus a busy-backend history: the backend does not read for 7 s (thorough also 6, 9, 12 s) and then resumes, while the client posts a 12 MiB message, ten small ones and further posts that have to wait for room, and goes on posting whatever the answers are; what the backend receives must be a gap-free prefix of what was posted and contain every post answered 200; plus reopen histories: open A, open B, traffic on A, A ends (client close | backend close reported by a poll), open C, then interleaved two-session traffic (posts spanning B and C) with every backend connection and every session's polls checked for exactly their own messages; plus close-behind-data histories: 1-35 messages (more than the queue, or 1 MiB each) posted to a backend that reads one message per 5-20 ms, close posted right behind the last data post, all messages must arrive in order followed by a normal closure; with injection enabled JSON messages of 13 shapes around resource.headers; class = (injection, protocol version, sessions, size profile, kinds, post batching, poll timing)")
 	r.Assume("binary messages are only generated under shim protocol version 1 (version 0 carries text only); JSON numbers in injected messages are float64-exact; injection is judged as safety only (an unchanged message is always acceptable)")
 	bin := r.MustBuild(r.BuildWorker())
 	godebug := shimGodebug(r)
@@ -296,5 +304,5 @@ func C11(r *core.Run) {
 	r.Set("max_case_duration_ms", maxMs)
 	r.Set("worker_godebug", godebug)
 	r.JudgeRaces(core.ParseRaceLogs(filepath.Join(r.WorkDir, "race-")))
-	r.Finish(r.Pick(185, 4800))
+	r.Finish(r.Pick(187, 4800))
 }
